@@ -112,10 +112,13 @@ def forbidden_scan():
     return hits
 
 
-def lean_build():
-    """lake build (library + driver).  Returns (ok, log)."""
+def lean_build(module=None):
+    """lake build of the driver and of one property module with everything it imports (or of the whole
+    library when module is None).  Returns (ok, log).  Building per module keeps one property's broken
+    proof from masking the others."""
+    targets = ["sigc_model"] + ([module] if module else ["Sigc"])
     with FileLock("lake"):
-        rc, out = sh(["lake", "build"], cwd=LEAN, timeout=3600)
+        rc, out = sh(["lake", "build"] + targets, cwd=LEAN, timeout=3600)
     return rc == 0, out
 
 
@@ -177,7 +180,7 @@ def leanchecker(module):
 def proof_obligations(module, required, thorough=False):
     """Step 1 of every check.  Returns dict with obligations/discharged/failed/axioms."""
     t0 = time.time()
-    ok, log = lean_build()
+    ok, log = lean_build(module)
     res = {"module": module, "build_ok": ok, "failed": [], "axioms": {}, "obligations": 0,
            "discharged": 0, "forbidden_hits": [], "leanchecker": None}
     if not ok:
